@@ -81,9 +81,83 @@ fn gamma_dd(sm: &mut Summary, seed: u64) {
     } }
 }
 
+/// decompose_for_tropical called directly with the user's type: accuracy in that type (C15) and the tolerance boundary of
+/// the stability test decided in that type (C16): with tol = the f64 image of the distance, the call must fail when the distance
+/// (a value of the user's type) exceeds tol (the converse is not demanded by the property)
+fn matrix_dd(sm: &mut Summary, seed: u64) {
+    use momtrop::matrix::{MatrixError, SquareMatrix};
+    use std::panic::{catch_unwind, AssertUnwindSafe};
+    let mut rng = rng_for(seed ^ 0x3a7, 11);
+    let dec = |m: &[Vec<Dd>], tol: Option<f64>| -> Result<Result<momtrop::matrix::DecompositionResult<Dd>, &'static str>, String> {
+        let n = m.len();
+        let mut a = SquareMatrix::new_zeros_from_num(&Dd::ONE, n);
+        for i in 0..n { for j in 0..n { a[(i, j)] = m[i][j]; } }
+        let st = Settings::new(tol, false, false).to_momtrop();
+        match catch_unwind(AssertUnwindSafe(|| a.decompose_for_tropical(&st))) {
+            Ok(Ok(r)) => Ok(Ok(r)),
+            Ok(Err(MatrixError::ZeroDet)) => Ok(Err("ZeroDet")),
+            Ok(Err(MatrixError::Unstable)) => Ok(Err("Unstable")),
+            Err(p) => Err(panic_msg(p)),
+        }
+    };
+    for it in 0..240usize {
+        let n = 1 + it % 6;
+        let (mf, kind) = crate::checks::matrix::gen_matrix(&mut rng, [0usize, 3, 2, 0, 3, 1][it % 6], n);
+        // a symmetric matrix whose entries are not doubles
+        let mut m = vec![vec![Dd::ZERO; n]; n];
+        for i in 0..n { for j in i..n { let v = jitter(mf[i][j], &mut rng); m[i][j] = v; m[j][i] = v; } }
+        let inst = |what: &str| json!({"dd": true, "matrix": {"kind": kind, "n": n, "what": what, "m": m.iter().map(|r| r.iter().map(|v| json!([hexf(v.hi), hexf(v.lo)])).collect::<Vec<_>>()).collect::<Vec<_>>()}, "line": {}});
+        let r = match dec(&m, None) { Ok(Ok(r)) => r, Ok(Err(_)) => continue, Err(p) => { sm.violation("C15", format!("[double-double scalar] decompose_for_tropical panicked: {}", p), inst("panic"), json!({})); continue; } };
+        sm.evaluations += 1;
+        sm.count("dd_matrices");
+        let inv = mat_to_vv(&r.inverse);
+        let lf: Vec<Vec<f64>> = m.iter().map(|r| r.iter().map(|v| v.hi).collect()).collect();
+        if !(0..n).all(|i| lf[i][i] > 0.0) { continue; }
+        let lsc: Vec<Vec<f64>> = (0..n).map(|i| (0..n).map(|j| lf[i][j] / (lf[i][i] * lf[j][j]).sqrt()).collect()).collect();
+        let cond = inv_f64(&lsc).map(|li| norm1(&lsc) * norm1(&li)).unwrap_or(f64::INFINITY);
+        if !(cond <= 1e6) { sm.count("dd_matrix_skipped_cond"); continue; }
+        // C15: determinant against the exact rational determinant
+        if let Some(dx) = exact_det(&m) {
+            if dx.is_positive() {
+                let want = Dd::from_rational(&dx);
+                let rel = absd(sub(r.determinant, want)) / want.hi.abs();
+                if !(rel <= 1e-27 * cond * n as f64 * 10.0) {
+                    sm.violation("C15", format!("[double-double scalar] determinant differs from the exact one by {:e} (relative), condition {:.1e}", rel, cond), inst("det"), json!({}));
+                    sm.violation("C19", format!("[double-double scalar] precision of the user's type not preserved in decompose_for_tropical: determinant off by {:e}", rel), inst("det"), json!({}));
+                }
+            }
+        }
+        // the distance the stability test speaks about, in the user's type
+        let mut dist = Dd::ZERO;
+        for j in 0..n {
+            let mut col = Dd::ZERO;
+            for i in 0..n {
+                let mut sacc = Dd::ZERO;
+                for k in 0..n { sacc = Dd::add_dd(sacc, Dd::mul_dd(inv[i][k], m[k][j])); }
+                if i == j { sacc = sub(sacc, Dd::ONE); }
+                col = Dd::add_dd(col, Dd::mul_dd(sacc, sacc));
+            }
+            dist = Dd::add_dd(dist, col.sqrt_dd());
+        }
+        if !(dist.hi > 0.0 && dist.is_finite()) { continue; }
+        // tol = f64 image of the distance: the verdict depends on the low part alone.  (Only decided when the low part is well
+        // above the rounding of the distance computation itself.)
+        let tol = dist.hi;
+        if dist.lo.abs() < 1e-3 * dist.hi * 2f64.powi(-53) { sm.count("dd_matrix_tolerance_undecided"); continue; }
+        sm.count("dd_matrix_tolerance_cases");
+        let above = dist.lo > 0.0;
+        match dec(&m, Some(tol)) {
+            Ok(Ok(_)) if above => sm.violation("C16", format!("[double-double scalar] Ok although the distance {:e} + {:e} exceeds tol = {:e} in the user's type", dist.hi, dist.lo, tol), inst("tol"), json!({})),
+            Err(p) => sm.violation("C16", format!("[double-double scalar] decompose_for_tropical panicked with the stability test on: {}", p), inst("tol"), json!({})),
+            _ => {}
+        }
+    }
+}
+
 pub fn run(lines: &[Value], seed: u64, base_idx: u64, points: usize) -> Summary {
     let mut sm = Summary::default();
     gamma_dd(&mut sm, seed);
+    matrix_dd(&mut sm, seed);
     for (li, inst) in lines.iter().enumerate() {
         let idx = li as u64 + base_idx;
         let line = Line::parse(inst);
